@@ -106,6 +106,10 @@ type Service struct {
 	// Tracking for attestations.
 	pendingAttestations      map[phase0.Slot]bool
 	pendingAttestationsMutex sync.RWMutex
+
+	// attesterDutiesMutex ensures that obtaining and scheduling attester duties
+	// is not interleaved with a refresh of those duties.
+	attesterDutiesMutex sync.Mutex
 }
 
 // New creates a new controller.
